@@ -48,7 +48,13 @@ def request_spec(draw: Any, i: int) -> Dict[str, Any]:
                                                "foo, close"]))
     mode = draw(st.sampled_from(["read_first"] * 4 + ["start_first", "respond_first", "no_read",
                                                       "no_read_exit", "abort", "abort_raise"]))
+    # an Upgrade offer the server does not take (h2c next to a body, or an unknown protocol):
+    # h11 pauses after such a request until its response is complete
+    upgrade = draw(st.sampled_from([None] * 5 + ["h2c", "other"]))
+    if upgrade == "h2c" and (framing == "none" or version != "1.1"):
+        upgrade = None
     return {
+        "upgrade": upgrade,
         "version": version, "conn": conn, "framing": framing, "body_len": n,
         "body_seed": draw(st.integers(0, 255)),
         "chunks": draw(chunk_plan(n, max_chunks=25)) if framing == "chunked" else [],
@@ -108,8 +114,15 @@ def avoid_known_deadlock(case: Dict[str, Any]) -> Dict[str, Any]:
 
 def req_bytes(i: int, r: Dict[str, Any]) -> bytes:
     headers = [["Host", "example.com"]]
-    if r["conn"] is not None:
-        headers.append(["Connection", r["conn"]])
+    conn = r["conn"]
+    if r.get("upgrade"):
+        headers.append(["Upgrade", "h2c" if r["upgrade"] == "h2c" else "verif-proto/1"])
+        conn = "upgrade" if conn is None else conn + ", upgrade"
+        if r["upgrade"] == "h2c":
+            headers.append(["HTTP2-Settings", "AAMAAABkAAQAAP__"])
+            conn += ", HTTP2-Settings"
+    if conn is not None:
+        headers.append(["Connection", conn])
     if r["expect100"]:
         headers.append(["Expect", "100-continue"])
     return encode_request({
